@@ -28,7 +28,7 @@ def run_check(run, prop):
         run.violation("tie-broken", "harness does not build against /repo", {"correspondence": "wire harness build", "log": blog[-3000:]}, found_input=False)
         return
     wire = bins["wire"]
-    cases = S.directed_cases() + S.gen_cases(run.rng, 110 if quick else 1500)
+    cases = S.directed_cases() + S.gen_cases(run.rng, 280 if quick else 3000)
     models = S.model_observe(cases) if ok else [None] * len(cases)
     scns = [S.scenario(*c, inuse=(m[4] if m is not None else None)) for c, m in zip(cases, models)]
     results = W.run_scenarios(wire, scns, timeout=90)
